@@ -366,7 +366,7 @@ def ref_spec(spec, v, leaf=None):
     for fname, expr in spec.get('init_false_setter') or ():
         imgs[fname] = values.eval_expr(expr)
     post = spec.get('post')
-    if post and post != 'count':
+    if post and post != 'count' and post[0] == 'raise_if':
         _, fname, expr, _exc = post
         trig = values.eval_expr(expr)
         if type(imgs[fname]) is type(trig) and imgs[fname] == trig:
